@@ -85,7 +85,39 @@ def strategy(tier):
 
 
 def hyp_examples(tier):
-    return 3000 if tier == "quick" else 100000
+    return 8000 if tier == "quick" else 100000
+
+
+def custom_units(tier, seed):
+    if tier != "thorough":
+        return []
+    return [{"fuzz": "fuzz_c13.py", "runs": 50000, "seed": seed * 100 + i + 1, "corpus": None if i % 2 == 0 else "corpus_c13"} for i in range(4)]
+
+
+def run_custom(payload, tier, seed, acc):
+    import os
+
+    from vlib import VERIF_ROOT
+    from vlib.runner import run_atheris
+
+    corpus = os.path.join(VERIF_ROOT, "fuzz", payload["corpus"]) if payload["corpus"] else None
+    done, bad, note = run_atheris(payload["fuzz"], payload["runs"], payload["seed"], corpus, 512)
+    out = Outcome(evals=done, nontrivial=0, labels=["atheris:" + (note or ("seed-corpus" if corpus else "empty-corpus"))])
+    out.sample = {"atheris": payload, "executions": done, "note": note}
+    for data in bad:
+        if not data.startswith(b"PATCH"):
+            data = b"PATCH" + data
+        try:
+            ips.parse(data)
+            good = True
+        except ips.IpsError:
+            good = False
+        sub = {"t": "raw", "hex": data.hex(), "wellformed": good}
+        sub_out = run_case(sub)
+        out.violations += sub_out.violations
+    if done == 0 and not note:
+        out.skip = "atheris produced no executions"
+    acc.add(payload, out)
 
 
 def _small_patch() -> bytes:
@@ -149,7 +181,42 @@ def _host_only(place):
     return HOST_PRE + HOST_POST
 
 
+def _run_raw(case) -> Outcome:
+    """arbitrary bytes (from the fuzzer): well formed => same effect, malformed => rejected"""
+    data = bytes.fromhex(case["hex"])
+    out = Outcome(evals=1, nontrivial=True, labels=["raw-bytes"])
+    try:
+        recs = ips.parse(data)
+        good = True
+    except ips.IpsError:
+        good = False
+        try:
+            ips.parse(data, strict_tail=False)
+            return Outcome(skip="trailing bytes after EOF (outside the generated domain)")
+        except ips.IpsError:
+            pass
+    if good and any(o == ips.EOF_OFFSET or o < 0x10000 or len(d) == 0 for o, d, _ in recs):
+        return Outcome(skip="record outside the generated domain")
+    res = driver.assemble_mem(_program("between", "0"), files={"p.ips": {"hex": case["hex"]}})
+    host = driver.assemble_mem(_host_only("between"))
+    if good:
+        if not res.accepted:
+            out.bad(f"raw:wellformed-rejected:{res['exc']}", case, f"well-formed patch rejected: {res['exc']} {res.failure_text[:120]} bytes={case['hex'][:80]}")
+        else:
+            calls = list(res["blocks"])
+            for hb in host["blocks"]:
+                if hb in calls:
+                    calls.remove(hb)
+            if ips.normalise(calls) != ips.normalise([(o, d) for o, d, _ in recs]):
+                out.bad("raw:effect", case, f"effect differs for bytes={case['hex'][:80]}")
+    elif res.accepted:
+        out.bad("raw:malformed-accepted", case, f"malformed patch accepted: bytes={case['hex'][:80]}")
+    return out
+
+
 def run_case(case) -> Outcome:
+    if case["t"] == "raw":
+        return _run_raw(case)
     if case["t"] == "bad":
         blob = bytes.fromhex(case["hex"])
         try:
